@@ -167,6 +167,14 @@ fn record(rng: &mut Rng, ac: &mut Ac) -> (Vec<u8>, &'static str) {
                 ..Default::default()
             });
         }
+        if rng.chance(0.08) {
+            // a payload that satisfies both the BDS 5,0 and the BDS 6,0 heuristics (from the repository's own
+            // test_bds5060_no65): the table must treat it like the record does
+            mb = [0xff, 0xfb, 0x23, 0x28, 0x60, 0x04, 0xa7];
+            if rng.chance(0.5) {
+                mb[6] ^= 1 << rng.below(3);
+            }
+        }
         if rng.chance(0.5) {
             (frames::df20(rng.below(8) as u8, rng.below(32) as u8, rng.below(64) as u8, ac13, &mb, ac.addr), "df20")
         } else {
